@@ -58,9 +58,10 @@ Init ==
 (* pairs: empty when the clause holds; deviation names a KNOWN way the     *)
 (* code departs from the property ("none" if the failure matches none).    *)
 (***************************************************************************)
-(* C20 judges each goroutine's trace with the self-referential sequential   *)
-(* clauses (C01, C06, C07) and against the same history run alone.         *)
-P(p) == Prop = p \/ Prop = "ALL" \/ (Prop = "C20" /\ p \in {"C01", "C06", "C07"})
+P(p) == Prop = p \/ Prop = "ALL"
+
+(* C20 judges each goroutine's events only against the same history run alone: a defect that *)
+(* shows equally in the solo run is a sequential defect and belongs to another property.     *)
 
 (* C20: the event equals its twin of the solo run (same result, bytes, object, scalar) *)
 TwinClauses(e) ==
